@@ -46,14 +46,39 @@ def cases(draw, ctx, file_strategy):
     desc = draw(file_strategy)
     path, T = get_file(desc, ctx)
     n = draw(st.integers(1, 10))
-    return {"file": desc, "ops": [draw(ops.op_for(T)) for _ in range(n)]}
+    c = {"file": desc, "ops": [draw(ops.op_for(T)) for _ in range(n)]}
+    if desc.get("kind") == "spec" and draw(st.integers(0, 3)) == 0:
+        c["companion"] = draw(st.integers(0, 10 ** 6))   # another file of the same layout, open in a second reader meanwhile
+    return c
 
 
 def run_case(case, ctx):
     path, T = get_file(case["file"], ctx)
     sigs, labels = [], []
     fam = case["file"].get("family")
+    other = None
+    if case.get("companion") is not None:
+        cdesc = dict(case["file"], values={"kind": "gauss", "vseed": int(case["companion"])})
+        cpath, CT = files.build(cdesc, ctx.tmp(), name="companion.sgz")
+        other = ops.Handles(cpath, CT)
+    try:
+        return _run_ops(case, ctx, path, T, fam, other, CT if other else None)
+    finally:
+        if other is not None:
+            other.close()
+
+
+def _run_ops(case, ctx, path, T, fam, other, CT):
+    sigs, labels = [], []
     for op in case["ops"]:
+        if other is not None and op["m"] not in ("xarray", "tools.cube", "meta"):
+            # the same item of the companion file first, through a reader that stays open
+            k2, w2 = ops.expected(CT, op)
+            try:
+                g2 = ops.perform(other, op)
+            except Exception as e:
+                raise Violation(f"exception:{op['m']}", f"companion file, {op}: {type(e).__name__}: {e}")
+            ops.compare(k2, g2, w2, op)
         H = ops.Handles(path, T)
         try:
             kind, want = ops.expected(T, op)
@@ -68,6 +93,8 @@ def run_case(case, ctx):
         sigs.append([fam, T.s.rate, case["file"].get("version", case["file"].get("name")), op["m"], bc,
                      bool(op.get("steps")), T.structured])
         labels.append(op["m"])
+    if other is not None:
+        labels.append("companion-reader")
     labels.append("file:" + str(fam))
     labels.append("irregular" if (not T.is_2d and not T.structured) else ("2d" if T.is_2d else "regular"))
     return {"sigs": sigs, "labels": labels}
